@@ -48,7 +48,7 @@ def run_check(prop: str, tier: str, repo: str, evidence_dir: str, write_evidence
             "facts_digest": facts_mod.digest(),
             "facts_rederived": bool(F.get("_rederived")),
             "repo": repo,
-            "decides": spec["decides"],
+            "decides": sorted(set(spec["decides"]) | set(R.counts)),
             "not_decided": spec["not_decided"],
         }
         if tier == "thorough" and write_evidence:
